@@ -33,6 +33,20 @@ def main():
         print(f"MACHINERY-FAILURE property={pid}: check module cannot be loaded")
         return 2
     rep = Report(pid, a.tier)
+    # overall watchdog: a library call that never returns inside a worker thread (e.g. a fast alignment that stalls inside
+    # compute_gamma) must not hang the check for ever; C10 is the check that decides termination itself
+    limit = float(os.environ.get("PGVERIF_TIMEOUT", 1800 if a.tier == "quick" else 6 * 3600))
+
+    def _expired():
+        import faulthandler
+        print(f"MACHINERY-FAILURE property={pid}: the check did not finish within {limit:.0f} s (stacks follow)", flush=True)
+        faulthandler.dump_traceback(file=sys.stdout, all_threads=True)
+        sys.stdout.flush()
+        os._exit(2)
+    import threading
+    wd = threading.Timer(limit, _expired)
+    wd.daemon = True
+    wd.start()
     try:
         if a.replay:
             mod.replay(a.replay, rep)
